@@ -70,6 +70,8 @@ def explain_dev(case, backend, i):
         if op in ("join", "joinc"):
             return "pandas_null_keys_match"
     if backend in ("polars", "polars_lazy"):
+        if op in ("project", "wextend"):
+            return "polars_nunique_counts_null"
         if op == "extend":
             return "polars_maxmin_ignore_null"
         if op in ("join", "joinc"):
